@@ -278,8 +278,54 @@ func checkC01(tier string) {
 			strings.ReplaceAll(fmt.Sprintf("func use_ID(a, b *Heap, this, that, f *Emb) %s { return %s }", pl.body, pl.call), "ID", id)
 		cases = append(cases, &e1Case{ID: id, Zero: "(*int)(nil)", Key: "namepressure|" + pl.prefix, Extra: extra, Tags: map[string]string{"plugin": strings.ToLower(strings.TrimPrefix(pl.prefix, "derive")), "form": "name-pressure"}})
 	}
+	// a call in an in-package _test file next to a call that needs a second pass (and the
+	// reverse: the late call in the _test file), each pair alone in its package
+	for _, pl := range []struct{ plain, late string }{
+		{"func plain_ID(a, b *Rec) bool { return deriveEqual_ID(a, b) }", "func late_ID(m map[string]int, w []string) bool { return deriveEqualL_ID(deriveSort_ID(deriveKeys_ID(m)), w) }"},
+		{"func plain_ID(a, b []Heap) int { return deriveCompare_ID(a, b) }", "func late_ID(a *Heap) int { return deriveCompareL_ID(deriveClone_ID(a), a) }"},
+		{"func plain_ID(a Emb) uint64 { return deriveHash_ID(a) }", "func late_ID(a []Flat) uint64 { return deriveHashL_ID(deriveClone_ID(a)) }"},
+		{"func plain_ID(a map[string]Rec) string { return deriveGoString_ID(a) }", "func late_ID(a *Emb) string { return deriveGoStringL_ID(deriveClone_ID(a)) }"},
+	} {
+		for _, where := range []string{"plain-in-test", "late-in-test", "both-in-test"} {
+			id := idf()
+			c := &e1Case{ID: id, Zero: "(*int)(nil)", Isolated: true, Tags: map[string]string{"plugin": "mixed", "form": "test+second-pass/" + where}}
+			pt, lt := strings.ReplaceAll(pl.plain, "ID", id), strings.ReplaceAll(pl.late, "ID", id)
+			switch where {
+			case "plain-in-test":
+				c.TestSrc, c.Extra = pt, lt
+			case "late-in-test":
+				c.TestSrc, c.Extra = lt, pt
+			default:
+				c.TestSrc = pt + "\n" + lt
+			}
+			cases = append(cases, c)
+		}
+	}
+	// late names: the user names a call that only becomes typeable in pass 2 exactly like
+	// a helper that pass 1 mints (prefix_, prefix_1) for another type; alone in the package
+	for _, pl := range []struct{ prefix, main, late, body string }{
+		{"deriveEqual", "deriveEqual(a, b)", "deriveEqualNAME(deriveSort_ID(deriveKeys_ID(m)), w)", "bool"},
+		{"deriveCompare", "deriveCompare(a, b) == 0", "deriveCompareNAME(deriveSort_ID(deriveKeys_ID(m)), w) == 0", "bool"},
+		{"deriveHash", "deriveHash(a) == 0", "deriveHashNAME(deriveSort_ID(deriveKeys_ID(m))) == 0", "bool"},
+		{"deriveGoString", "deriveGoString(a) == \"\"", "deriveGoStringNAME(deriveSort_ID(deriveKeys_ID(m))) == \"\"", "bool"},
+		{"deriveDeepCopy", "func() bool { deriveDeepCopy(a, b); return true }()", "func() bool { deriveDeepCopyNAME(w, deriveSort_ID(deriveKeys_ID(m))); return true }()", "bool"},
+	} {
+		for _, name := range []string{"_", "_1"} {
+			for _, order := range []string{"main-first", "late-first"} {
+				id := idf()
+				fm := fmt.Sprintf("func main_ID(a, b *Rec) %s { return %s }\n", pl.body, pl.main)
+				fl := fmt.Sprintf("func late_ID(m map[int]bool, w []int) %s { return %s }\n", pl.body, strings.ReplaceAll(pl.late, "NAME", name))
+				src := fm + fl
+				if order == "late-first" {
+					src = fl + fm
+				}
+				cases = append(cases, &e1Case{ID: id, Zero: "(*int)(nil)", Isolated: true, Extra: strings.ReplaceAll(src, "ID", id),
+					Tags: map[string]string{"plugin": strings.ToLower(strings.TrimPrefix(pl.prefix, "derive")), "form": "late-name" + name + "/" + order}})
+			}
+		}
+	}
 	res := runE1(cases, "C01", 60, nil, 1)
-	aggregateE1(rep, "C01", cases, res, bound+"; x {Equal, Compare, Hash, DeepCopy, Clone, GoString}; call-site forms {closure in a package-level var, function body, package-level var initialiser, in-package _test file, one-argument curried form, nested derive call typeable only after a first pass} over depth <= 1; list helpers {Sort, Keys, Min, Max, Contains, Unique, Set, Union, Intersect, Filter, TakeWhile, All, Any, Fmap, Join, Traverse, Mem, Sort(Keys())} over "+ebound+"; name-pressure packages; both same-named imports appear together in the batches",
+	aggregateE1(rep, "C01", cases, res, bound+"; x {Equal, Compare, Hash, DeepCopy, Clone, GoString}; call-site forms {closure in a package-level var, function body, package-level var initialiser, in-package _test file, one-argument curried form, nested derive call typeable only after a first pass} over depth <= 1; list helpers {Sort, Keys, Min, Max, Contains, Unique, Set, Union, Intersect, Filter, TakeWhile, All, Any, Fmap, Join, Traverse, Mem, Sort(Keys())} over "+ebound+"; name-pressure packages; _test-file calls next to calls needing a second pass; late-typeable calls named like a minted helper (prefix_, prefix_1) x {Equal, Compare, Hash, GoString, DeepCopy} x both source orders; both same-named imports appear together in the batches",
 		"state = one program: (type shape, plugin, call-site form), placed in a scenario package with up to 59 others; transition = one run of the real goderive on the package plus one run of the Go type checker (go build / go test -run ^$ for the _test form) on sources + derived.gen.go, including bisection and confirmation runs that isolate a failing program; the oracle is exit 0 and zero compiler errors (covers unresolved, redeclared and not-assignable calls, missing and unused imports); non-trivial = every program")
 	rep.Cov["distinct_nontrivial"] = len(cases) - len(res.Failures)
 	rep.Finish()
